@@ -8,8 +8,13 @@ PROP = dict(
             # the wrappers that change the outcome; one CASE per terminal state
             dict(module="Middleware", cfg=dict(quick="Middleware_quick.cfg", thorough="MiddlewareEmit_thorough.cfg"), emit=True,
                  workers=8, timeout=dict(quick=300, thorough=600)),
+            # extension: rule tables of header / mime / status / request_id / index / ext / expvar / pprof
+            # (specs/ResponseRules.tla, notes/ResponseRules.md): invariants + one CASE per site and per (site, request)
+            dict(module="ResponseRules", cfg=dict(quick="ResponseRules_quick.cfg", thorough="ResponseRules_thorough.cfg"), emit=True,
+                 workers=8, timeout=dict(quick=300, thorough=1200)),
         ],
-        go=[dict(pkg="c12", test="TestC12", timeout=dict(quick=600, thorough=3000))],
+        go=[dict(pkg="c12", test="TestC12", timeout=dict(quick=600, thorough=3000)),
+            dict(pkg="cx12rules", test="TestCx12Rules", timeout=dict(quick=300, thorough=1200))],
         traces=[dict(name="middlewaretrace", module="MiddlewareTrace", cfg="MiddlewareTrace.cfg", timeout=900),
                 dict(name="middlewaretrace_selftest", module="MiddlewareTrace", cfg="MiddlewareTraceNeg.cfg", timeout=300)],
         exhaustive=dict(quick=True, thorough=True),
